@@ -153,6 +153,12 @@ def registration(ctx) -> None:
             names = {m, 'features'} if m == 'selection' else {m}
             covered = any(_mentions(fn.node, var, n) for n in names)
             ctx.check(covered, 'R-SIBLING', fn, f'_Columns.{mname} visits `{var}.{m}` like the parser registers it', fn.node, key=f'{mname}:{m}')
+            # visited whenever present: an accept() of the member may only be guarded by its own positive None-test
+            for c in core.calls_in(fn.node):
+                if isinstance(c.func, ast.Attribute) and c.func.attr == 'accept' and any(_mentions(c.func.value, var, n) for n in names) and not any(isinstance(a, (ast.For, ast.comprehension)) for a in core.ancestors(c) if a is not fn.node):
+                    gs = [(core.src(t), pol) for t, pol in cfg.guards(c, fn.node, siblings=False)]
+                    okg = all((t == f'{var}.{m} is not None' and pol) or (t == f'{var}.{m} is None' and not pol) for t, pol in gs)
+                    ctx.check(okg, 'R-SIBLING', fn, f'`{var}.{m}` is visited whenever it is present (guards: {gs})', c, key=f'{mname}:{m}:guard')
 
 
 # ---- factor soundness -----------------------------------------------------------------------------
@@ -371,6 +377,43 @@ def _reads_join_kind(prog, resolver, fn: core.FuncInfo, expr: ast.AST, depth: in
     return False
 
 
+def _helper_says_outer(prog, helper: core.FuncInfo, kind: str):
+    """Fold the helper's join branch for a join of the given kind (recursive calls on the operands count as False)."""
+    kind_enum = prog.cls(f'{FRAME}:Join.Kind')
+    for st in core.walk_local(helper.node):
+        if isinstance(st, ast.If) and 'isinstance' in core.src(st.test) and 'Join' in core.src(st.test):
+            ret = next((r for r in st.body if isinstance(r, ast.Return)), None)
+            if ret is None:
+                return None
+
+            def ev(e):
+                if isinstance(e, ast.BoolOp):
+                    vals = [ev(v) for v in e.values]
+                    if isinstance(e.op, ast.Or):
+                        return True if any(v is True for v in vals) else (False if all(v is False for v in vals) else None)
+                    return False if any(v is False for v in vals) else (True if all(v is True for v in vals) else None)
+                if isinstance(e, ast.UnaryOp) and isinstance(e.op, ast.Not):
+                    v = ev(e.operand)
+                    return None if v is None else not v
+                if isinstance(e, ast.Call):
+                    return False  # recursion into the operands: plain tables
+                if isinstance(e, ast.Compare) and len(e.ops) == 1 and core.src(e.left).endswith('.kind'):
+                    members = []
+                    comp = e.comparators[0]
+                    elts = comp.elts if isinstance(comp, (ast.Set, ast.Tuple, ast.List)) else [comp]
+                    for x in elts:
+                        members.append((core.dotted(x) or '').split('.')[-1])
+                    inside = kind in members
+                    if isinstance(e.ops[0], (ast.In, ast.Is, ast.Eq)):
+                        return inside
+                    if isinstance(e.ops[0], (ast.NotIn, ast.IsNot, ast.NotEq)):
+                        return not inside
+                return None
+
+            return ev(ret.value)
+    return None
+
+
 def kind_guards(ctx) -> None:
     prog = ctx.prog
     resolver = calls.Resolver(prog)
@@ -391,6 +434,28 @@ def kind_guards(ctx) -> None:
                 ctx.check(inner, 'C14.kind-guard', fn, 'a join condition is registered as a row filter only for INNER joins (outer joins preserve unmatched rows)', c, key=f'{mname}:condition-filter')
             else:
                 reads_kind = any(_reads_join_kind(prog, resolver, fn, g, 2) for g, _ in gs)
+                # polarity: with an outer (LEFT) join in the source the filter branch must be infeasible, with INNER feasible
+                for g, pol in gs:
+                    calls_in_g = [x for x in ast.walk(g) if isinstance(x, ast.Call)]
+                    for hc in calls_in_g:
+                        callee = None
+                        if isinstance(hc.func, ast.Attribute) and isinstance(hc.func.value, ast.Name) and hc.func.value.id in ('self', 'cls') and fn.cls:
+                            found = fn.cls.lookup(hc.func.attr)
+                            if found and isinstance(found[1], core.FUNC):
+                                callee = prog.func(f'{found[0].ref}.{hc.func.attr}')
+                        if callee is None:
+                            continue
+                        verdicts = {}
+                        for kind in ('LEFT', 'INNER'):
+                            verdicts[kind] = _helper_says_outer(prog, callee, kind)
+                        if None in verdicts.values():
+                            continue
+                        # guard value for a LEFT join must route away from filter()
+                        guard_left = verdicts['LEFT'] if isinstance(g, ast.Call) else (not verdicts['LEFT'] if isinstance(g, ast.UnaryOp) else None)
+                        if guard_left is None:
+                            continue
+                        taken_for_left = (guard_left == pol)
+                        ctx.check(verdicts['LEFT'] is True and verdicts['INNER'] is False and not taken_for_left, 'C14.kind-guard', fn, f'the where-filter branch is not taken when the source involves an outer join (helper says outer for LEFT={verdicts["LEFT"]}, INNER={verdicts["INNER"]})', c, key=f'{mname}:where-filter:polarity')
                 ctx.check(
                     reads_kind, 'C14.kind-guard', fn,
                     f'`{arg}` factors become table row filters without consulting the kinds of the joins in the query source (unsafe on the null-supplying side of an outer join)',
